@@ -63,6 +63,7 @@ pub static KEYWORDS: Lazy<HashSet<&'static str>> = Lazy::new(|| {
         "nil",
         "is",
         "map",
+        "typeof",
     ])
 });
 
